@@ -1,7 +1,7 @@
 SPECIFICATION Spec
 CONSTANTS
-  IdSet = {"a", "b"}
-  MaxOps = 5
+  IdSet = {"a", " a", "b"}
+  MaxOps = 4
   Variant = "ideal"
   PrintCases = FALSE
   Rejections = TRUE
